@@ -307,6 +307,6 @@ def run_case(case, rec, ctx):
 
 META = {
     "technique": "snapshot/ensure contract on HelicityModel.rename_symbols (independent application of the symbol map to every attribute, C01 closure on the result, assumptions, original untouched) plus numeric comparison of original and renamed model through the full evaluation pipeline",
-    "level_text": "Ten kinds of rename maps (injective, merging equal-assumption parameters, chains a->b b->c, swaps, kinematic variables to fresh names, empty, unknown names, all parameters, repeat/inverse incl. the iterable-of-pairs form, mass symbols occurring in both dictionaries) are applied to models of 12 fixtures (thorough: all) under several configurations incl. dynamics, stable masses and DPD, and to synthetic reactions; every call is judged structurally by the contract and numerically at 8 events with carried-over (for merges: coupled) parameter values.",
+    "level_text": "Ten kinds of rename maps (injective, merging equal-assumption parameters, chains a->b b->c, swaps, kinematic variables to fresh names, empty, unknown names, all parameters, repeat/inverse incl. the iterable-of-pairs form, mass symbols occurring in both dictionaries) are applied to models of 12 fixtures (thorough: all) under several configurations incl. dynamics, stable masses and DPD, and to synthetic reactions; every call is judged structurally by the contract and numerically at 8 events with carried-over (for merges: coupled) parameter values. After every rename a parameter value is assigned in each model and must not appear in the other.",
     "level_note": "Merges between symbols with different assumptions and renaming a kinematic variable onto an existing name are excluded: the statement's clauses cannot all hold for them.",
 }
